@@ -22,8 +22,8 @@ import (
 
 type poly map[string]int64 // monomial ("a*b", "" for the constant term) -> coefficient
 
-func pAtom(k string) poly   { return poly{k: 1} }
-func pConst(k int64) poly   { return poly{"": k}.norm() }
+func pAtom(k string) poly { return poly{k: 1} }
+func pConst(k int64) poly { return poly{"": k}.norm() }
 func (p poly) norm() poly {
 	for k, v := range p {
 		if v == 0 {
